@@ -25,6 +25,7 @@ Definition view_eqb (a b : view) : bool :=
   (Bool.eqb (v_present a) (v_present b) && Bool.eqb (v_stopped a) (v_stopped b)
    && list_eqb (opt_eqb bb_eqb) (v_eps a) (v_eps b)
    && list_eqb fcp_eqb (v_fcs a) (v_fcs b)
+   && list_eqb fkind_eqb (v_enf a) (v_enf b)
    && list_eqb Bool.eqb (v_gates a) (v_gates b)
    && list_eqb (opt_eqb probe_eqb) (v_probes a) (v_probes b)
    && list_eqb String.eqb (v_names a) (v_names b)
